@@ -31,7 +31,9 @@ pub const CHUNKED_STATUSES: [(&str, u16, &str); 8] = [
 pub fn chunked_body_flow_for(which: usize) -> Result<F<RecvBody>, String> {
     let (method, status, extra) = CHUNKED_STATUSES[which % CHUNKED_STATUSES.len()];
     let mut f = super::c05::recv_flow(method);
-    let head = format!("HTTP/1.1 {} X\r\n{}Transfer-Encoding: chunked\r\n\r\n", status, extra);
+    // the coding is announced in several legal spellings
+    let te = ["chunked", "Chunked", "gzip, chunked", "chunked,", "chunked", " chunked\t"][which / CHUNKED_STATUSES.len() % 6];
+    let head = format!("HTTP/1.1 {} X\r\n{}Transfer-Encoding: {}\r\n\r\n", status, extra, te);
     let (n, r) = f.try_response(head.as_bytes()).map_err(|e| format!("{:?}", e))?;
     if n != head.len() || r.is_none() {
         return Err("head not accepted".into());
@@ -430,7 +432,10 @@ fn random_case(rng: &mut Rng, rec: &mut Rec) {
     let plan = random_plan(rng, 8, 20_000);
     let coded = encode_plan(&plan, rng.below(200) as u8);
     let len = coded.bytes.len();
-    rec.ev(|| format!("coding ({} bytes, chunks {:?})", len, plan.chunks.iter().map(|c| c.size).collect::<Vec<_>>()));
+    rec.ev(|| format!("coding ({} bytes, chunks {:?}, trailer lines {:?})", len, plan.chunks.iter().map(|c| c.size).collect::<Vec<_>>(), plan.trailers.iter().map(|t| t.len()).collect::<Vec<_>>()));
+    if plan.trailers.iter().any(|t| t.len() >= 98) {
+        rec.cov("trailer-line/98-bytes-or-more");
+    }
     for _ in 0..4 {
         let k = rng.usize_in(0, 20);
         let mut cuts: Vec<usize> = (0..k)
@@ -465,7 +470,7 @@ impl Property for P {
         "C07"
     }
     fn rule(&self) -> String {
-        "chunked codings are rendered from a plan (sizes, hex case, leading zeros, extensions, trailers, payload containing CR/LF/'0'/';'), so payload, coding length and chunk map are known. Each run delivers the coding followed by the head of a next message under a cut set, reading while there is progress with a given output-size pattern, boundary stop on or off, and checks after every read: output == payload so far, never a byte beyond the coding consumed, ended <=> final CRLF consumed, no read spanning two chunks with boundary stop. (A) every coding <= 18 bytes of a tiny grammar x ALL cut sets x {out 0..4 cycle, 1, large, exact-then-zero-length} x stop on/off; the response carrying the coding is one of eight (method, status) pairs incl. 205, 301, 404, 500; (B) grammar codings (<=3 chunks, sizes 1,2,3,15,16,255,256,4095,4096, ext, hex styles, 0..2 trailers) x every single cut and every pair of cuts within +-3 of a token boundary, byte-at-a-time, random cut sets; (C) random codings up to 8 chunks of 20 KB. class = token kind before the cut x output pattern; decoder transitions actually taken are counted by the in-crate hook.".into()
+        "chunked codings are rendered from a plan (sizes, hex case, leading zeros, extensions, trailers, payload containing CR/LF/'0'/';'), so payload, coding length and chunk map are known. Each run delivers the coding followed by the head of a next message under a cut set, reading while there is progress with a given output-size pattern, boundary stop on or off, and checks after every read: output == payload so far, never a byte beyond the coding consumed, ended <=> final CRLF consumed, no read spanning two chunks with boundary stop. (A) every coding <= 18 bytes of a tiny grammar x ALL cut sets x {out 0..4 cycle, 1, large, exact-then-zero-length} x stop on/off; the response carrying the coding is one of eight (method, status) pairs incl. 205, 301, 404, 500; (B) grammar codings (<=3 chunks, sizes 1,2,3,15,16,255,256,4095,4096, ext, hex styles, 0..2 trailers) x every single cut and every pair of cuts within +-3 of a token boundary, byte-at-a-time, random cut sets; (C) random codings up to 8 chunks of 20 KB. The coding is announced as chunked / Chunked / gzip, chunked / chunked, (empty list element) / with blanks; trailer lines up to 5000 bytes occur in the random plans. class = token kind before the cut x output pattern; decoder transitions actually taken are counted by the in-crate hook.".into()
     }
     fn assumptions(&self) -> Vec<String> {
         vec![
@@ -520,6 +525,7 @@ impl Property for P {
         v.push(("tail/nothing-follows".into(), 1000));
         v.push(("tail/looks-like-last-chunk".into(), 1000));
         v.push(("boundary-stop/off".into(), 1000));
+        v.push(("trailer-line/98-bytes-or-more".into(), 20));
         v
     }
 }
